@@ -88,6 +88,8 @@ class ResurrectorSink(ClientMessageSink):
         self._log.info('Reopened channel.')
         return
       except GreenletExit:
+        # Closed while the reopen was in flight, don't leak the sink being opened.
+        sink.Close()
         return
       except:
         sink.Close()
